@@ -186,7 +186,8 @@ MCNext ==
     \/ /\ DispVals # <<>> /\ want = "none" /\ cur = NoDict
        /\ \E d \in E, i \in 1 .. Len(DispVals), impl \in (E \ Used) :
              /\ nodes[d].k = "ds" /\ nodes[d].tab # 0 /\ impl # d /\ KindOf(impl) \in {"fnapp", "ds", "val", "opt"}
-             /\ ~(\E t \in DOMAIN tabs : \E e \in 1 .. Len(tabs[t]) : tabs[t][e].n = impl)
+             \* one implementation may serve several aliases of the same dataset (a list alias), not two datasets
+             /\ ~(\E t \in DOMAIN tabs : t # nodes[d].tab /\ \E e \in 1 .. Len(tabs[t]) : tabs[t][e].n = impl)
              \* before the first call an alias is registered once; between calls a registered alias may be
              \* registered again (the later registration wins)
              /\ LET taken == \E e \in 1 .. Len(tabs[nodes[d].tab]) : tabs[nodes[d].tab][e].v = DispVals[i]
@@ -393,6 +394,18 @@ FE_Bodies == {"f"}
 FE_Effs == {<<"ep">>, <<"e1", "ep">>}
 FE_Leaves == <<[p |-> pA, vals |-> {I(1)}, extra |-> FALSE],
                [p |-> <<"EP">>, vals |-> {I(3), I(4)}, extra |-> FALSE]>>
+
+\* family "selectors" (C03, C10, C11, C05): coalesce / switch over options with domains, 4 nodes exhaustively
+FSL_Kinds == {"val", "opt", "coalesce", "switch"}
+FSL_Paths == {pA, pB}
+FSL_Consts == {Lv(<<I(0), I(1)>>), I(1)}
+FSL_Disp == <<I(1), Str("x")>>
+FSL_Leaves == <<[p |-> pA, vals |-> {I(0), I(1), Str("x")}, extra |-> FALSE],
+                [p |-> pB, vals |-> {I(1), Str("x")}, extra |-> FALSE]>>
+
+\* family "overloads" (C02): an implementation dataset registered under one or two aliases (decorator form)
+FOV_Bodies == {"f"}
+FOV_Leaves == <<[p |-> <<"K">>, vals |-> {I(1), Str("x")}, extra |-> FALSE]>>
 
 \* family "cases" (C05, C12): case-when with constant and option-dependent, possibly raising predicates
 FCS_Kinds == {"val", "opt", "pred", "case"}
